@@ -15,8 +15,9 @@
    (chunk.rs) panicked in debug on decreasing offsets (release: the first wrapped
    and seeked backwards, the second wrapped into `vec![0u8; ~2^64]` = "capacity
    overflow" panic), and `vec![0u8; delta]` with a large corrupted delta aborted
-   the process (allocation failure) in both profiles.  Not modelled: I/O errors other than end-of-file (the `Some(Err(_))`
-   arms fed by them are unreachable on regular files), missing files, 32-bit usize.
+   the process (allocation failure) in both profiles.
+   Not modelled: I/O errors other than end-of-file (the `Some(Err(_))` arms fed by
+   them are unreachable on regular files), missing files, 32-bit usize.
 
    Definitions only. *)
 From PV Require Import Lib.Base Immutable.ChunkList.
